@@ -1076,12 +1076,51 @@ static ElementType value_type_to_elem_type(ValueType vtype) {
     }
 }
 
+/* Element size of a static array, as allocated by create_array() */
+static size_t static_array_elem_size(ValueType elem_type) {
+    switch (elem_type) {
+        case VAL_INT:    return sizeof(long long);
+        case VAL_FLOAT:  return sizeof(double);
+        case VAL_BOOL:   return sizeof(bool);
+        case VAL_STRING: return sizeof(char*);
+        default:         return sizeof(void*);
+    }
+}
+
 static Value builtin_array_push(Value *args) {
     /* array_push(array, value) -> array
      * For empty array literal [], infers type from first push
      * For dynamic arrays, appends element
      */
     
+    /* A static array with elements (made by a literal, array_new or
+     * array_slice) grows in place, so that every name bound to it sees the
+     * new element.  The untyped [] becomes a dynamic array (below). */
+    if (args[0].type == VAL_ARRAY && args[0].as.array_val->capacity > 0) {
+        Array *arr = args[0].as.array_val;
+        if (arr->element_type != args[1].type) {
+            fprintf(stderr, "Error: Type mismatch in array_push\n");
+            return create_void();
+        }
+        if (arr->length >= arr->capacity) {
+            int new_capacity = arr->capacity * 2;
+            size_t elem_size = static_array_elem_size(arr->element_type);
+            void *grown = realloc(arr->data, (size_t)new_capacity * elem_size);
+            if (!grown) {
+                fprintf(stderr, "Error: Out of memory in array_push\n");
+                exit(1);
+            }
+            memset((char*)grown + (size_t)arr->length * elem_size, 0,
+                   (size_t)(new_capacity - arr->length) * elem_size);
+            arr->data = grown;
+            arr->capacity = new_capacity;
+        }
+        arr->length++;
+        Value set_args[3] = { args[0], create_int(arr->length - 1), args[1] };
+        builtin_array_set(set_args);
+        return args[0];
+    }
+
     /* If arg[0] is an empty static array, convert to dynamic */
     if (args[0].type == VAL_ARRAY && args[0].as.array_val->length == 0) {
         /* Create new dynamic array with element type from value */
@@ -1177,6 +1216,18 @@ static Value builtin_array_push(Value *args) {
 
 static Value builtin_array_pop(Value *args) {
     /* array_pop(array) -> value */
+    if (args[0].type == VAL_ARRAY) {
+        /* Static array: the last element, removed in place */
+        Array *arr = args[0].as.array_val;
+        if (arr->length == 0) {
+            fprintf(stderr, "Runtime Error: array_pop() on empty array\n");
+            exit(1);  /* Fail fast, like an out-of-range index */
+        }
+        Value at_args[2] = { args[0], create_int(arr->length - 1) };
+        Value last = builtin_at(at_args);
+        arr->length--;
+        return last;
+    }
     if (args[0].type != VAL_DYN_ARRAY) {
         fprintf(stderr, "Error: array_pop() requires a dynamic array\n");
         return create_void();
@@ -1227,6 +1278,26 @@ static Value builtin_array_pop(Value *args) {
 
 static Value builtin_array_remove_at(Value *args) {
     /* array_remove_at(array, index) -> array */
+    if (args[0].type == VAL_ARRAY && args[1].type == VAL_INT) {
+        /* Static array: close the gap in place */
+        Array *arr = args[0].as.array_val;
+        long long index = args[1].as.int_val;
+        if (index < 0 || index >= arr->length) {
+            fprintf(stderr, "Runtime Error: Array index %lld out of bounds\n", index);
+            exit(1);
+        }
+        size_t elem_size = static_array_elem_size(arr->element_type);
+        if (arr->element_type == VAL_STRING) {
+            free(((char**)arr->data)[index]);
+        }
+        memmove((char*)arr->data + (size_t)index * elem_size,
+                (char*)arr->data + (size_t)(index + 1) * elem_size,
+                (size_t)(arr->length - 1 - index) * elem_size);
+        arr->length--;
+        /* the vacated slot holds no element any more (array_push frees old strings) */
+        memset((char*)arr->data + (size_t)arr->length * elem_size, 0, elem_size);
+        return args[0];
+    }
     if (args[0].type != VAL_DYN_ARRAY) {
         fprintf(stderr, "Error: array_remove_at() requires a dynamic array\n");
         return create_void();
